@@ -7,6 +7,9 @@ open Lean Bermuda Bermuda.Plot
 /-!
 Driver of C20. One request per line:
   {"cells": [...], "impl": [record…] | null, "tol": "n/d"}
+  {"cells": [...], "impl": [recordE…] | null, "tol": "n/d", "removeEmpties": bool}   (option stream: recordE = record
+     + "e": [[metric name, summary | null (= the empty summary {})]…] in record order + "tt": [names the tooltip is
+     joined from]; model = buildPlotDataOpt, spec = the clauses below + "summary_slots" + "tooltip_sources")
 Record   {"ps","pe","ev","lag":"n/d","fields":[…],"m":[[name,{"fc":bool,"s":[[stat,["e"|"r","n/d"]]…]}]…]}
 Answer   {"model": [record…], "spec": {clause: bool…} | null, "specModel": bool}
 -/
@@ -59,7 +62,47 @@ def specJson (tol : Rat) (t : List Cell) (recs : List Record) : Json :=
     ("absent_input_no_summary", Spec.C20.absentOk t recs),
     ("summary_monotone", Spec.C20.monotoneOk tol recs)]
 
+def entryToJson (e : Entry) : Json :=
+  Json.arr #[Json.str e.1, match e.2 with | some s => Summary.toJson s | none => Json.null]
+
+def entryFromJson (j : Json) : Except String Entry := do
+  let a ← j.getArr?
+  if a.size != 2 then throw "entry: want [name, summary|null]"
+  return (← a[0]!.getStr?, ← if a[1]!.isNull then pure none else (Summary.fromJson a[1]!).map some)
+
+/-- a record with its slots: the record's JSON plus "e": [[name, summary|null]…], "tt": [name…] -/
+def recordEToJson (r : RecordE) : Json :=
+  ((Record.toJson r.base).setObjVal! "e" (Json.arr (r.entries.map entryToJson).toArray)).setObjVal! "tt"
+    (Json.arr (r.tooltip.map Json.str).toArray)
+
+def recordEFromJson (j : Json) : Except String RecordE := do
+  return { base := ← Record.fromJson j,
+           entries := ← (← (← j.getObjVal? "e").getArr?).toList.mapM entryFromJson,
+           tooltip := ← (← (← j.getObjVal? "tt").getArr?).toList.mapM (·.getStr?) }
+
+/-- request with "removeEmpties": bool — the option stream: records carry "e" and "tt" -/
+def handleOpt (j : Json) (b : Bool) : Except String Json := do
+  let cells ← cellsFromJson (← j.getObjVal? "cells")
+  let tol ← match j.getObjVal? "tol" with
+    | .ok v => ratFromJson v
+    | .error _ => pure 0
+  let model := buildPlotDataOpt b Generated.PlotMetrics.metrics cells
+  let spec ← match j.getObjVal? "impl" with
+    | .ok v =>
+      if v.isNull then pure Json.null
+      else do
+        let recs ← (← v.getArr?).toList.mapM recordEFromJson
+        pure (((specJson tol cells (recs.map (·.base))).setObjVal! "summary_slots"
+          (Json.bool (recs.all (Spec.C20.entriesOk b)))).setObjVal! "tooltip_sources"
+          (Json.bool (recs.all Spec.C20.tooltipOk)))
+    | .error _ => pure Json.null
+  return Json.mkObj [("model", Json.arr (model.map recordEToJson).toArray), ("spec", spec),
+                     ("specModel", Json.bool (Spec.C20.holdsOpt b 0 cells model))]
+
 def handle (j : Json) : Except String Json := do
+  match j.getObjVal? "removeEmpties" with
+  | .ok v => return ← handleOpt j (← v.getBool?)
+  | .error _ => pure ()
   let cells ← cellsFromJson (← j.getObjVal? "cells")
   let tol ← match j.getObjVal? "tol" with
     | .ok v => ratFromJson v
